@@ -190,10 +190,39 @@ def _run_worker(args):
                     error=f'{type(e).__name__}: {e}\n{traceback.format_exc()}', wall=time.time() - t0)
 
 
+SELFTEST: Dict[str, Any] = {}
+
+
+def _selftest_proc(seed, q):
+    try:
+        from . import selftest
+        q.put(('ok', selftest.run(seed)))
+    except BaseException as e:   # noqa
+        q.put(('error', f'{type(e).__name__}: {e}'))
+
+
+def run_selftest(seed=0):
+    """Engine self-test in a child process (it installs shims and plants mutants)."""
+    ctx = mp.get_context('fork')
+    q = ctx.Queue()
+    p = ctx.Process(target=_selftest_proc, args=(seed, q))
+    p.start()
+    try:
+        status, info = q.get(timeout=300)
+    except Exception:
+        status, info = 'error', 'self-test timed out'
+    p.join(10)
+    SELFTEST.clear()
+    SELFTEST.update(status=status, info=info)
+    return status == 'ok'
+
+
 def run_configs(modname: str, fname: str, configs: List[Any], kwargs=None, jobs=None,
                 per_config_timeout=None) -> List[dict]:
     """Run worker(config) for every config in parallel processes."""
     kwargs = kwargs or {}
+    if not SELFTEST:
+        run_selftest(int(os.environ.get('VERIF_SEED', '0')))
     jobs = jobs or min(16, os.cpu_count() or 4, max(1, len(configs)))
     if len(configs) == 0:
         return []
@@ -347,6 +376,9 @@ def finish(pid: str, tier: str, seed: int, results: List[dict], t0: float, level
     for c, e in errors:
         lines.append(f'HARNESS-ERROR worker failed @ {c}: {e[-1500:]}')
         exit_code = max(exit_code, EXIT_HARNESS)
+    if SELFTEST and SELFTEST.get('status') != 'ok':
+        lines.append(f'HARNESS-ERROR engine self-test failed: {SELFTEST.get("info")}')
+        exit_code = max(exit_code, EXIT_HARNESS)
     if exit_code == EXIT_HARNESS and violations:
         exit_code = EXIT_VIOLATION
 
@@ -395,6 +427,7 @@ def finish(pid: str, tier: str, seed: int, results: List[dict], t0: float, level
                       'numpy object-dtype dispatch'],
         explanation='bounded symbolic execution of the real panqec functions with z3; see DESIGN.md',
         per_config_wall_s={r['config']: round(r.get('wall', 0), 2) for r in results},
+        engine_selftest=dict(SELFTEST),
     )
     if extra:
         cov.update(extra)
